@@ -1,29 +1,28 @@
 #!/bin/sh
-# usage: seed.sh <name> <property> [checks...]  - adopt the mutant prepared in /tmp/mut/<name> as /verif/seeded/<name>,
-# confirm it (suite unchanged, demo fails with / passes without), then run the given checks against it in /repo and undo.
+# usage: seed.sh <name> <property> [checks...]  - adopt the change prepared in /tmp/mut/<name> as /verif/seeded/<name>,
+# confirm it (suite unchanged, demo fails with / passes without), then run the given checks against the changed sources
+# (a scratch copy read through MQTT_SRC; /repo is not touched).
 name=$1; prop=$2; shift 2
 M=/tmp/mut/$name; S=/verif/seeded/$name
 mkdir -p $S
 if [ -d $M ]; then
-[ -s $M/patch.diff ] || git -C $M diff -- src > $M/patch.diff
-cp $M/patch.diff $S/patch.diff; cp $M/demo.py $S/demo.py
-sed -i "s|/tmp/mut/$name/src|/repo/src|g" $S/demo.py
-# confirm in the scratch worktree
-cd $M && git checkout -- src && /venv/bin/python demo.py > /dev/null 2>&1; clean=$?
-git apply $S/patch.diff || { echo "patch does not apply to the scratch worktree"; exit 3; }
-/venv/bin/python demo.py > $S/demo.out 2>&1; mutated=$?
-suite=$(/venv/bin/python -m pytest -q -p no:cacheprovider 2>&1 | tail -1)
-echo "demo: unchanged exit=$clean, changed exit=$mutated; suite: $suite"
-else echo "(scratch worktree gone: re-running the checks only)"; fi
-# run the checks against it in /repo
-cd /verif
-git -C /repo apply $S/patch.diff || { echo "patch does not apply to /repo"; exit 3; }
-res=""
+  [ -s $M/patch.diff ] || git -C $M diff -- src > $M/patch.diff
+  cp $M/patch.diff $S/patch.diff; cp $M/demo.py $S/demo.py
+  sed -i "s|/tmp/mut/$name/src|/repo/src|g" $S/demo.py
+  cd $M && git checkout -- src && /venv/bin/python demo.py > /dev/null 2>&1; clean=$?
+  git apply $S/patch.diff || { echo "patch does not apply to the scratch worktree"; exit 3; }
+  /venv/bin/python demo.py > $S/demo.out 2>&1; mutated=$?
+  suite=$(/venv/bin/python -m pytest -q -p no:cacheprovider 2>&1 | tail -1)
+  echo "demo: unchanged exit=$clean, changed exit=$mutated; suite: $suite"
+fi
+T=/tmp/seed-$name; rm -rf $T; mkdir -p $T; cp -r /repo/src $T/src
+(cd $T && patch -p1 -s < $S/patch.diff) || { echo "$name NOAPPLY"; rm -rf $T; exit 3; }
+cd /verif; res=""
 for c in ${@:-$prop}; do
-  out=$(./check $c --tier quick 2>&1); rc=$?
+  out=$(MQTT_SRC=$T/src ./check $c --tier quick 2>&1); rc=$?
   echo "--- check $c rc=$rc"; echo "$out" | grep -v "^NOTE" | tail -4
   res="$res $c:$rc"
 done
-git -C /repo checkout -- .
+rm -rf $T
 echo "RESULT $name$res"
 echo "$res" > $S/result.txt
